@@ -486,6 +486,8 @@ def eval_exact(t, env=None, prims=None):
         return t[1]
     if h == "bool":
         return t[1]
+    if h == "str":
+        return t[1]
     if h == "add":
         return sum((eval_exact(x, env, prims) for x in t[1:]), Fraction(0))
     if h == "mul":
@@ -540,6 +542,10 @@ def eval_exact(t, env=None, prims=None):
             for k, v in b[1]:
                 if k[0] == "num" and k[1] == i:
                     return eval_exact(v, env, prims)
+        if b[0] not in ("list", "tuple", "dict"):
+            bv = eval_exact(b, env, prims)
+            if isinstance(bv, tuple) and i.denominator == 1 and -len(bv) <= i < len(bv):
+                return bv[int(i)]
         raise NotEvaluable("subscript out of range / of a non-literal")
     if h == "attr" and prims is not None:
         r = prims(t, env)
@@ -632,3 +638,268 @@ def walk_with_helpers(repo, mod, fn):
     for f in with_new_helpers(repo, mod, fn):
         for n in ast.walk(f):
             yield n
+
+
+# ---------------------------------------------------------------------------------------------
+# integer interval sets of one symbol from a boolean term
+# ---------------------------------------------------------------------------------------------
+IINF = 10 ** 12
+
+
+def iset_inter(a, b):
+    out = []
+    for l1, h1 in a:
+        for l2, h2 in b:
+            lo_, hi_ = max(l1, l2), min(h1, h2)
+            if lo_ <= hi_:
+                out.append((lo_, hi_))
+    return iset_union(out, [])
+
+
+def iset_union(a, b):
+    out = []
+    for l_, h_ in sorted(list(a) + list(b)):
+        if out and l_ <= out[-1][1] + 1:
+            out[-1] = (out[-1][0], max(out[-1][1], h_))
+        else:
+            out.append((l_, h_))
+    return out
+
+
+def iset_compl(a):
+    out, cur = [], -IINF
+    for l_, h_ in iset_union(a, []):
+        if cur < l_:
+            out.append((cur, l_ - 1))
+        cur = max(cur, h_ + 1)
+    if cur <= IINF:
+        out.append((cur, IINF))
+    return out
+
+
+def int_set(c, var):
+    """(intervals, exact): the set of *integer* values of symbol `var` satisfying boolean term c,
+    as sorted disjoint closed intervals.  Atoms that do not compare var with a number make the
+    answer inexact; they are taken as satisfiable both ways (over-approximation in either polarity)."""
+    import math
+    full = [(-IINF, IINF)]
+    exact = [True]
+
+    def go(c, pos):
+        h = c[0]
+        if h == "bool":
+            return full if bool(c[1]) == pos else []
+        if h == "not":
+            return go(c[1], not pos)
+        if h in ("and", "or"):
+            conj = (h == "and") == pos
+            r = full if conj else []
+            for x in c[1:]:
+                s = go(x, pos)
+                r = iset_inter(r, s) if conj else iset_union(r, s)
+            return r
+        if h == "cmp":
+            op, a, b = c[1], c[2], c[3]
+            if b == var and a[0] == "num":
+                a, b = b, a
+                op = {"Lt": "Gt", "Gt": "Lt", "LtE": "GtE", "GtE": "LtE"}.get(op, op)
+            if a == var and b[0] == "num":
+                v = b[1]
+                fl, ce = math.floor(v), math.ceil(v)
+                if op == "Lt":
+                    s = [(-IINF, ce - 1)]
+                elif op == "LtE":
+                    s = [(-IINF, fl)]
+                elif op == "Gt":
+                    s = [(fl + 1, IINF)]
+                elif op == "GtE":
+                    s = [(ce, IINF)]
+                elif op == "Eq":
+                    s = [(fl, fl)] if fl == ce else []
+                elif op == "NotEq":
+                    s = iset_compl([(fl, fl)]) if fl == ce else full
+                else:
+                    exact[0] = False
+                    return full
+                return s if pos else iset_compl(s)
+        exact[0] = False
+        return full
+
+    return go(c, True), exact[0]
+
+
+# ---------------------------------------------------------------------------------------------
+# sign-case equivalence prover
+#   t == m for all inputs, decided by splitting on the sign (0 / + / -) of the operands of the comparisons with
+#   zero that occur in either term; in each case the conditions fold and the residues are compared as polynomials.
+#   Sound: every case assumption is applied to both terms; cases are exhaustive; nothing is sampled.
+# ---------------------------------------------------------------------------------------------
+def sign_of(x, facts):
+    """'0' '+' '-' '>=0' '<=0' or None"""
+    try:
+        if x in facts:
+            return facts[x]
+    except TypeError:
+        return None
+    h = x[0]
+    if h == "num":
+        return "0" if x[1] == 0 else "+" if x[1] > 0 else "-"
+    if h == "call":
+        if x[1] == "abs" and len(x) == 3:
+            s = sign_of(x[2], facts)
+            return "+" if s in ("+", "-") else "0" if s == "0" else ">=0"
+        if x[1] == "mod" and len(x) == 4 and sign_of(x[3], facts) == "+":
+            return "0" if sign_of(x[2], facts) == "0" else ">=0"
+        if x[1] in ("int", "floor") and len(x) == 3:
+            s = sign_of(x[2], facts)
+            return {"0": "0", "+": ">=0", ">=0": ">=0"}.get(s) if x[1] == "int" or s != "-" else None
+        if x[1] == "float" and len(x) == 3:
+            return sign_of(x[2], facts)
+        return None
+    if h == "mul":
+        ss = [sign_of(y, facts) for y in x[1:]]
+        if "0" in ss:
+            return "0"
+        if any(s is None for s in ss):
+            return None
+        neg = sum(1 for s in ss if s in ("-", "<=0")) % 2 == 1
+        strict = all(s in ("+", "-") for s in ss)
+        return ("-" if neg else "+") if strict else ("<=0" if neg else ">=0")
+    if h == "add":
+        ss = [sign_of(y, facts) for y in x[1:]]
+        if all(s == "0" for s in ss):
+            return "0"
+        if all(s in ("+", ">=0", "0") for s in ss):
+            return "+" if "+" in ss else ">=0"
+        if all(s in ("-", "<=0", "0") for s in ss):
+            return "-" if "-" in ss else "<=0"
+    return None
+
+
+def sign_simplify(t, facts, _memo=None):
+    """fold comparisons with zero, abs, and closed int/mod/floor calls under the sign facts"""
+    import math
+    if _memo is None:
+        _memo = {}
+    if not isinstance(t, tuple) or not t or not isinstance(t[0], str):
+        return t
+    k = id(t)
+    if k in _memo:
+        return _memo[k][1]
+    h = t[0]
+    if h in ("num", "str", "bool", "sym", "opaque", "none"):
+        r = t
+    elif h == "cmp":
+        a, b = sign_simplify(t[2], facts, _memo), sign_simplify(t[3], facts, _memo)
+        r = ("cmp", t[1], a, b)
+        s = None
+        if a[0] == "num" and b[0] == "num":
+            s = "0" if a[1] == b[1] else "+" if a[1] > b[1] else "-"
+        elif b == T.num(0):
+            s = sign_of(a, facts)
+        elif a == T.num(0):
+            s = {"+": "-", "-": "+", "0": "0", ">=0": "<=0", "<=0": ">=0"}.get(sign_of(b, facts))
+        if s is not None:
+            table = {"Gt": {"+": True, "0": False, "-": False, "<=0": False},
+                     "GtE": {"+": True, "0": True, "-": False, ">=0": True},
+                     "Lt": {"-": True, "0": False, "+": False, ">=0": False},
+                     "LtE": {"-": True, "0": True, "+": False, "<=0": True},
+                     "Eq": {"0": True, "+": False, "-": False},
+                     "NotEq": {"0": False, "+": True, "-": True}}
+            v = table.get(t[1], {}).get(s)
+            if v is not None:
+                r = ("bool", v)
+    elif h == "call":
+        args = tuple(sign_simplify(x, facts, _memo) for x in t[2:])
+        r = ("call", t[1]) + args
+        if t[1] == "abs" and len(args) == 1:
+            s = sign_of(args[0], facts)
+            if s in ("+", ">=0", "0"):
+                r = args[0]
+            elif s in ("-", "<=0"):
+                r = T.neg(args[0])
+        elif t[1] in ("int", "floor") and len(args) == 1 and args[0][0] == "num":
+            r = T.num(Fraction(int(args[0][1]) if t[1] == "int" else math.floor(args[0][1])))
+        elif t[1] == "mod" and len(args) == 2 and args[0][0] == "num" and args[1][0] == "num" and args[1][1] != 0:
+            r = T.num(args[0][1] % args[1][1])
+        elif t[1] == "float" and len(args) == 1 and args[0][0] == "num":
+            r = args[0]
+    else:
+        kids = tuple(sign_simplify(x, facts, _memo) if isinstance(x, tuple) else x for x in t[1:])
+        if h == "add":
+            r = T.add(*kids)
+        elif h == "mul":
+            r = T.mul(*kids)
+        elif h == "pow":
+            r = T.power(*kids)
+        elif h == "phi":
+            r = T.phi(*kids)
+        elif h == "not":
+            r = T.lnot(kids[0])
+        elif h == "and":
+            r = ("bool", False) if any(x == ("bool", False) for x in kids) else T.land(*kids)
+        elif h == "or":
+            if any(x == ("bool", True) for x in kids):
+                r = ("bool", True)
+            else:
+                rest = tuple(x for x in kids if x != ("bool", False))
+                r = ("bool", False) if not rest else rest[0] if len(rest) == 1 else ("or",) + rest
+        else:
+            r = (h,) + kids
+    _memo[k] = (t, r)
+    return r
+
+
+def _alg_equal(a, b):
+    from .poly import Algebra
+    if a == b:
+        return True
+    if a[0] in ("tuple", "list") and b[0] == a[0] and len(a) == len(b):
+        return all(_alg_equal(x, y) for x, y in zip(a[1:], b[1:]))
+    if a[0] in ("tuple", "list", "str", "bool") or b[0] in ("tuple", "list", "str", "bool"):
+        return False
+    try:
+        return bool(Algebra(atomize=True).equal(a, b))
+    except Exception:
+        return False
+
+
+def signcase_equal(t, m, facts=None, depth=6, stats=None, trail=()):
+    """(True, None) when t == m in every sign case; (False, (case, t', m')) when some fully split case leaves two
+    different residues; (None, why) when the split does not terminate within `depth` or no atom is left to split on
+    although the residues still contain conditions."""
+    facts = dict(facts or {})
+    t1, m1 = sign_simplify(t, facts), sign_simplify(m, facts)
+    if stats is not None:
+        stats["cases"] = stats.get("cases", 0) + 1
+    if _alg_equal(t1, m1):
+        return True, None
+    atoms = []
+    for src in (t1, m1):
+        for x in T.walk(src):
+            if x[0] == "cmp" and (x[3] == T.num(0) or x[2] == T.num(0)):
+                a = x[2] if x[3] == T.num(0) else x[3]
+                if not any(y[0] in ("phi", "cmp") for y in T.walk(a)) and a[0] != "num":
+                    atoms.append(a)
+    if not atoms:
+        has_cond = any(x[0] in ("phi", "cmp") for x in T.walk(("bag", t1, m1)))
+        if has_cond:
+            return None, "conditions other than comparisons with zero remain"
+        return False, (trail, t1, m1)
+    if depth == 0:
+        return None, "more than the allowed nesting of sign cases"
+    x = min(atoms, key=lambda a: len(T.show(a)))
+    s = sign_of(x, facts)
+    cases = {">=0": ("0", "+"), "<=0": ("0", "-")}.get(s, ("0", "+", "-"))
+    for c in cases:
+        f2 = dict(facts)
+        if c == "0":
+            t2, m2 = T.subst(t1, {x: T.num(0)}), T.subst(m1, {x: T.num(0)})
+            f2 = {T.subst(k, {x: T.num(0)}): v for k, v in f2.items()}
+        else:
+            t2, m2 = t1, m1
+            f2[x] = c
+        ok, why = signcase_equal(t2, m2, f2, depth - 1, stats, trail + ((T.show(x)[:40], {'0': '== 0', '+': '> 0', '-': '< 0'}[c]),))
+        if ok is not True:
+            return ok, why
+    return True, None
